@@ -8,6 +8,7 @@ import (
 	"strings"
 
 	"github.com/libsv/go-bt/v2"
+	"github.com/libsv/go-bt/v2/bscript"
 )
 
 // ---------- structured transaction generator ----------
@@ -337,6 +338,42 @@ func genC01(e *emitter, tier string, seed uint64) {
 			}
 		}
 	}
+	// a count or length field that claims a wrong value (wrap-around candidates included) in an otherwise valid tx
+	lies := []func(v uint64) uint64{
+		func(v uint64) uint64 { return v + 1<<63 }, func(v uint64) uint64 { return v + 1<<32 },
+		func(v uint64) uint64 { return v + 1<<31 }, func(v uint64) uint64 { return v | 0xffffffff00000000 },
+		func(v uint64) uint64 { return 1<<64 - 1 }, func(v uint64) uint64 { return 1 << 63 },
+		func(v uint64) uint64 { return v + 1 }, func(v uint64) uint64 { return v + 1<<16 },
+	}
+	for k := 0; k < lim/4+4; k++ {
+		tx := genTx(r, r.n(3), r.n(3), false)
+		if r.chance(50) {
+			for _, in := range tx.Inputs {
+				if r.chance(60) {
+					in.UnlockingScript = &bscript.Script{}
+				}
+			}
+			for _, o := range tx.Outputs {
+				if r.chance(40) {
+					o.LockingScript = &bscript.Script{}
+				}
+			}
+		}
+		for _, ext := range []bool{false, true} {
+			nv := 2 + len(tx.Inputs) + len(tx.Outputs)
+			if ext {
+				nv += len(tx.Inputs)
+			}
+			for which := 0; which < nv; which++ {
+				b := serializeLie(tx, ext, which, lies[r.n(len(lies))])
+				h := hex.EncodeToString(b)
+				res := e.runIsolated("C01.parse", h)
+				e.runIsolated("C01.exact", h)
+				e.note("bytes.lying-length")
+				e.note("parse." + strings.SplitN(res, " ", 2)[0])
+			}
+		}
+	}
 	// extended marker with non-minimal zero counts
 	{
 		tx := genTx(r, 2, 2, false)
@@ -402,13 +439,33 @@ func genC01(e *emitter, tier string, seed uint64) {
 
 // serializeWith writes tx like toBytesHelper but widens the `which`-th varint to `kind` bytes.
 func serializeWith(tx *bt.Tx, ext bool, which int, kind int) []byte {
-	idx := 0
-	vi := func(v uint64) []byte {
-		defer func() { idx++ }()
+	return serializeVI(tx, ext, func(idx int, v uint64) []byte {
 		if idx == which && bt.VarInt(v).Length() < kind {
 			return nonMinimalVarint(v, kind)
 		}
 		return bt.VarInt(v).Bytes()
+	})
+}
+
+// serializeLie writes tx with the `which`-th count/length varint claiming `claim` instead of the true value.
+func serializeLie(tx *bt.Tx, ext bool, which int, claim func(v uint64) uint64) []byte {
+	return serializeVI(tx, ext, func(idx int, v uint64) []byte {
+		if idx == which {
+			c := claim(v)
+			if c >= 1<<32 {
+				return nonMinimalVarint(c, 9)
+			}
+			return bt.VarInt(c).Bytes()
+		}
+		return bt.VarInt(v).Bytes()
+	})
+}
+
+func serializeVI(tx *bt.Tx, ext bool, enc func(idx int, v uint64) []byte) []byte {
+	idx := 0
+	vi := func(v uint64) []byte {
+		defer func() { idx++ }()
+		return enc(idx, v)
 	}
 	le32 := func(v uint32) []byte { return []byte{byte(v), byte(v >> 8), byte(v >> 16), byte(v >> 24)} }
 	le64 := func(v uint64) []byte {
